@@ -120,6 +120,18 @@ fn probe<C: ResourceChecker<PathBuf>>(tag: &str, c: &C, p: &PathBuf, s1: &St, s2
       let st_p = c.stamp(p, pie.resource_state_mut::<PathBuf>()).unwrap();
       let ok = fs::read(p).map(|d| d == w).unwrap_or(false);
       writeln!(out, "w {} eq={} content={}", tag, b(st_w == st_p), b(ok)).unwrap();
+      // a second, shorter write of the same path through the same Pie: opening for writing truncates again
+      match p.write(pie.resource_state_mut::<PathBuf>()) {
+        Err(_) => { writeln!(out, "w2 {} err", tag).unwrap(); }
+        Ok(mut file) => {
+          let w2 = content(7, 1);
+          file.write_all(&w2).unwrap();
+          file.flush().unwrap();
+          drop(file);
+          let ok = fs::read(p).map(|d| d == w2).unwrap_or(false);
+          writeln!(out, "w2 {} content={}", tag, b(ok)).unwrap();
+        }
+      }
     }
   }
 }
